@@ -52,8 +52,8 @@ Alpha ==
       [] Puzzle = "simpleloop" -> <<0, 1>>
       [] Puzzle = "shakashaka" -> <<ShWhiteCode, ShWhiteCode, ShWhiteCode, ShWhiteCode, -1, 0, 1, 2>>
       [] Puzzle = "geradeweg" -> IF N <= 9 THEN <<0, 0, 0, 1, 2, 3>> ELSE <<0, 0, 1, 2, 3>>
-      [] Puzzle = "castle_wall" -> IF N <= 6 THEN <<0, 0, 0, 0, 0, 0, 0, 0, 0, 0, 1100, 1101, 1200, 1201, 1300, 1301, 1400, 1401, 2100, 2201, 2301, 2400, 100, 201, 300, 401>>
-                                   ELSE <<0, 0, 0, 0, 0, 0, 1101, 2200, 1300, 2401>>
+      [] Puzzle = "castle_wall" -> IF N <= 6 THEN <<0, 0, 0, 0, 0, 0, 0, 0, 0, 0, 1100, 1101, 1200, 1201, 1300, 1301, 1400, 1401, 2100, 2201, 2301, 2400, 100, 201, 300, 401, 1000, 2000>>
+                                   ELSE <<0, 0, 0, 0, 0, 2000, 1101, 2200, 1300, 2401>>      \* 1000 / 2000: a wall without arrow
       [] Puzzle = "nurikabe" -> <<0, 0, 0, 0, -1, 1, 2, 3, 4>>
       [] Puzzle = "akari" -> <<-2, -2, -2, -2, -1, 0, 1, 2>>
       [] Puzzle = "yinyang" -> <<0, 0, 1, 2>>
